@@ -159,6 +159,14 @@ def perm_config(rnd):
     return cfg
 
 
+def pad_config(rnd):
+    """a universe with relabellings written as unions with an empty first child (the equivalence's non-empty child is child 1,
+    its maps depend on the position of the object in the tuple), over three letters so that the rule is walked backwards too"""
+    cfg = rand_config(rnd, "rot")
+    cfg.update(rot="pad", alpha="abc", iterative=False)
+    return cfg
+
+
 def build(cfg):
     if cfg.get("gram"):
         import ugram
